@@ -26,6 +26,25 @@ Theorem C04_source_tie : forall m i,
     ([fst (release m)], addr (snd (release m))).
 Proof. intros m i. split; [exact (tie_should_release m i) | exact (tie_release m)]. Qed.
 
+(* ... and the constructor that decides WHETHER pages are released (from_bb_input, translated
+   with X viewed as (is_memmap, ndim, X.shape[1], X.offset, X.ctypes.data)) is the model's
+   [from_memmap]: release only for a 2-D memmap whose row size divides the 2 MiB block and whose
+   header is shorter than a row *)
+Theorem C04_source_tie_ctor : forall cols offset data pagesize,
+  0 < cols -> 0 < pagesize -> pagesize * 512 < 2^53 -> cols < 2^53 ->
+  GMem.from_bb_input true 2 cols offset data pagesize None =
+  let m := from_memmap (pagesize * 512) cols offset data in
+  (can_release m, pagesizex m, iters m, addr m).
+Proof. exact tie_from_bb_input. Qed.
+Theorem C04_source_tie_ctor_other : forall is_memmap ndim cols offset data pagesize,
+  is_memmap && (ndim =? 2) = false ->
+  GMem.from_bb_input is_memmap ndim cols offset data pagesize None = (false, pagesize * 512, 0, 0).
+Proof.
+  intros [|] ndim cols offset data pagesize H.
+  - apply tie_from_bb_input_not_2d. exact H.
+  - apply tie_from_bb_input_not_memmap.
+Qed.
+
 (* cutting the sequence into consecutive fit calls changes nothing: labels continue from
    the running count and the tree persists *)
 Theorem C04_chunks : forall fexp st xs ys, released st = false -> xs <> [] -> ys <> [] ->
